@@ -174,8 +174,10 @@ pub fn run(ctx: &mut Ctx) {
     let ncases = if ctx.quick() { 36 } else { 300 };
     for case_no in 0..ncases {
         let mut rng = ctx.rng.fork(11_000 + case_no);
-        let dist = rng.below(4);
-        let (ncas, nfiles) = match rng.below(8) { 0 => (0, 0), 1 => (0, rng.range(1, 8) as usize), 2 => (rng.range(1, 8) as usize, 0), 3 if !ctx.quick() || case_no % 12 == 3 => (rng.range(100, 250) as usize, rng.range(100, 400) as usize), _ => (rng.range(1, 30) as usize, rng.range(1, 40) as usize) };
+        // cases 3 and 15 of every run are large tables (>= 256 rows: the interpolation loop runs) with groups sharing a truncated prefix
+        let forced_large = if ctx.quick() { case_no == 3 || case_no == 15 } else { case_no % 12 == 3 };
+        let dist = if forced_large { 3 } else { rng.below(4) };
+        let (ncas, nfiles) = if forced_large { (rng.range(20, 60) as usize, rng.range(260, 330) as usize) } else { match rng.below(8) { 0 => (0, 0), 1 => (0, rng.range(1, 8) as usize), 2 => (rng.range(1, 8) as usize, 0), 3 if !ctx.quick() || case_no % 12 == 3 => (rng.range(100, 250) as usize, rng.range(100, 400) as usize), _ => (rng.range(1, 30) as usize, rng.range(1, 40) as usize) } };
         let readd = rng.chance(1, 2);
         let g = gen_content(&mut rng, ncas, nfiles, dist, readd);
         let replay = format!("{{\"suite\":\"shard\",\"seed\":{},\"case\":{},\"ncas\":{},\"nfiles\":{},\"dist\":{},\"readd\":{}}}", ctx.seed, case_no, ncas, nfiles, dist, readd);
